@@ -33,6 +33,8 @@ def configs(run):
 
     def numpy_route(shape, rate, bs):
         cube = inputs.cube(shape, run.seed + shape[0])
+        if shape[0] == 11:          # samples that are not numbers (the file and its hash are still a function of the input alone)
+            cube[1, 2, 3], cube[5, 0, 7], cube[10, 4, 39] = np.nan, np.inf, -np.inf
 
         def thunk(p, cap):
             import seismic_zfp.conversion as cv
